@@ -28,6 +28,10 @@ ASSUMPTIONS = ["astropy WCS all_pix2world/all_world2pix semantics",
                "contracts table (aegean_sa/units.py)"]
 
 MUTANTS = [
+    ("minor-axis bearing taken from the end point back to the centre",
+     "AegeanTools/wcs_helpers.py",
+     "        pa2 = bear(ra, dec, ra2, dec2) - 90",
+     "        pa2 = bear(ra2, dec2, ra, dec) - 90", "C16-R12"),
     ("vector end point built in the caller's dtype", "AegeanTools/wcs_helpers.py",
      "        a = (x + r * np.cos(np.radians(theta)),\n"
      "             y + r * np.sin(np.radians(theta)))\n",
@@ -164,6 +168,13 @@ def run(ctx):
     r9_stateless(ctx, prog)
     r10_same_transformation(ctx, prog, ci)
     r11_float_offsets(ctx, prog)
+    from .. import link as _link
+    n12 = _link.argument_binding(ctx, "C16-R12", modules=["wcs_helpers"],
+                                 what="wcs_helpers: start / end points of "
+                                 "bear, gcd, translate and the pixel / sky "
+                                 "pairs of the conversions")
+    ctx.floor("C16-R12", n12, 10, "internal calls of wcs_helpers with "
+              "resolved parameters")
     from .. import precision
     precision.rule(
         ctx, prog, "C16-R6",
